@@ -9,6 +9,7 @@ Model commands:
   rw3_resize1x1 <bilinear> <half> <ifm shape csv> <ofm shape csv>   → identity | halfpixel | chain | add <const shape> fill scaleBits zp <ifm0> <ifm1> <ofm>
   rw3_avgpool <isAvg> kh kw sy sx depth                             → none | ok kh kw depth den sy sx
   rw3_shape <isShape> <npu> opIndex <ifm shape csv> ofmLen <consumers csv, n = None> → none | ok <consumers> <values>
+  rw3_pack axis <in shape csv> count <ofm shape csv>                 → none | ok axis4D <shape4> <write offsets>
   rw3_unpack <isUnpack> <npu> axis inRank <out shape csv>           → none | ok axis4D <shape4>
 Semantic checks of the real output:
   rwsem3_unpack <in shape csv> pos axis4D <shape4 csv>               → ok | fail output k element j …
@@ -135,6 +136,13 @@ def handle (toks : List String) : Option String :=
        | none => "none"
        | some u => s!"ok {u.axis4D} {showCsv u.shape4}")
     | _, _, _, _, _ => "err:parse"
+  | ["rw3_pack", axis, ishp, cnt, oshp] =>
+    some <| match parseInt? axis, csvNats ishp, parseNat? cnt, csvNats oshp with
+    | some axis, some ishp, some cnt, some oshp =>
+      (match rewritePack axis ishp cnt oshp with
+       | none => "none"
+       | some u => s!"ok {u.axis4D} {showCsv u.shape4} {showCsv u.offsets}")
+    | _, _, _, _ => "err:parse"
   | _ => none
 
 end VelaVerif.Handlers.Rewrites3
